@@ -13,8 +13,8 @@ import time
 import traceback
 
 VERIF = os.path.dirname(os.path.dirname(os.path.abspath(__file__)))
-EVID = os.path.join(VERIF, "evidence")
-REPLAYS = os.path.join(VERIF, "replays")
+EVID = os.environ.get("PYVC_EVIDENCE_DIR") or os.path.join(VERIF, "evidence")
+REPLAYS = os.environ.get("PYVC_REPLAY_DIR") or os.path.join(VERIF, "replays")
 
 SEMANTICS = [
     "S1 python ints are mathematical; // and % are floor division/modulo (divisor 0 forks to ZeroDivisionError)",
